@@ -10,7 +10,9 @@ CLEAN = ["export function f(a) { return a + 1; }\n", "export const a = 1;\n", "/
 DIRTY = ["debugger;\n", "var a = 1;\nexport { a };\n", "export function f() { debugger; if (x == 1) { } }\n",
          "// deno-lint-ignore no-debugger\ndebugger;\nlet x = 1; x = 2; export { x };\nfor (;;) { debugger; }\n",
          "export const x = <div key={1}>a > b</div>;\n"]
-RECOVERABLE = ["with (a) {}\n", "with (a) { debugger; }\n", "export const a = 1;\nwith (b) {}\nwith (c) {}\n"]
+RECOVERABLE = ["with (a) {}\n", "with (a) { debugger; }\n", "export const a = 1;\nwith (b) {}\nwith (c) {}\n",
+               "// deno-lint-ignore-file\nwith (a) {}\n", "// deno-lint-ignore-file no-with no-empty\nwith (a) {}\n"]
+MEDIA_OF = {".ts": "ts", ".js": "js", ".tsx": "tsx", ".jsx": "jsx", ".mjs": "mjs"}
 FATAL = ["let = ;\n", "function ( {\n"]
 
 
@@ -106,6 +108,15 @@ def c19(ctx):
                 ctx.notes.append("generator: %s unexpectedly fatal" % f["name"])
             if (rc != 0) != (n > 0 or fatal[f["name"]]):
                 ctx.violation("C19.exit-status-single", "single file %s: exit %d with count %d" % (f["name"], rc, n), {"dir": d, "file": f})
+        # count spec against the library: lint diagnostics (recommended rules, dlint's JSX config) + recoverable parse diagnostics
+        libres = lib.run_vh("lint", [{"src": f["src"], "media": MEDIA_OF[os.path.splitext(f["name"])[1]], "rules": "recommended",
+                                      "jsx": "React.createElement", "jsxfrag": "React.Fragment"} for f in files])
+        for f, lr in zip(files, libres):
+            if "ok" in lr and not fatal[f["name"]]:
+                want = len(lr["ok"]) + lr.get("parse_diags", 0)
+                if counts[f["name"]] != want:
+                    ctx.violation("C19.count-differs-from-library", "%s: dlint counts %d problems, library gives %d lint + %d recoverable parse diagnostics" % (
+                        f["name"], counts[f["name"]], len(lr["ok"]), lr.get("parse_diags", 0)), {"dir": d, "file": f})
         any_fatal = any(fatal.values())
         names = [f["name"] for f in files]
         order = sorted(names, key=lambda s: s.encode("utf8"))
@@ -160,11 +171,14 @@ def c19(ctx):
     # rule selection: --rule and --config run exactly the selected rules
     seld = os.path.join(root, "select")
     os.makedirs(seld)
-    src = "debugger;\nvar a = 1;\nif (a == 1) { }\nexport {};\nconsole.log(1);\n"
+    src = ("debugger;\nvar a = 1;\nif (a == 1) { }\nexport {};\nconsole.log(1);\nenum E {}\ninterface I {}\nwindow.x = 1;\nconst l = window.location;\n"
+           "function f(a, a2) { if (a) {} else {} }\nclass A { constructor() {} }\nfor (;;) {}\nlet u: any = 1;\n// TODO\nnew Symbol();\n")
     open(os.path.join(seld, "s.ts"), "w").write(src)
     reg = lib.vh_registry()
     tagmap = {r["code"]: set(r["tags"]) for r in reg["rules"]}
-    sel_cases = [("--rule", "no-debugger", None), ("--rule", "eqeqeq", None), ("--rule", "no-console", None)]
+    allcodes = sorted(tagmap)
+    prefix_rules = [c for c in allcodes if any(o != c and o.startswith(c) for o in allcodes)]
+    sel_cases = [("--rule", c, None) for c in ["no-debugger", "eqeqeq", "no-console"] + prefix_rules]
     for i in range(6 if ctx.tier == "quick" else 40):
         cfg = {"rules": {"tags": rng.choice([[], ["recommended"], ["jsx", "react"], ["recommended", "fresh"]]),
                          "include": rng.sample(["no-console", "eqeqeq", "no-var", "nope", "no-debugger"], rng.randint(0, 3)),
